@@ -297,6 +297,8 @@ class Tr:
       if f is None:
         fail(n, 'set operator')
       return ('(%s %s %s)' % (f, a, b), 'S')
+    if ta.startswith('L') and ta == tb and op is ast.Add:
+      return ('(%s ++ %s)' % (a, b), ta)
     if ta == 'B' and tb == 'B' and op in (ast.BitOr, ast.BitAnd):
       return ('(%s %s %s)' % ('orb' if op is ast.BitOr else 'andb', a, b), 'B')
     if op is ast.Div:
